@@ -684,6 +684,9 @@ class ManagerCorr(FrameResultCorr):
                 # the same pass/fail lists are demanded of a tracking evaluator, and of a manager that already holds an earlier frame
                 c["task"] = "tracking" if rng.random() < 0.3 else "detection"
                 c["history"] = rng.random() < 0.35
+                # ... half of those earlier frames are evaluated with the SAME critical / pass-fail config instances (the usual way: one
+                # config for a whole scene) under ANOTHER ego pose: nothing of the earlier frame may stick to the configs
+                c["history_same_cfg"] = rng.random() < 0.5
                 if c["task"] == "tracking":
                     c["ests"] = [dict(d, uuid=f"t{i}") for i, d in enumerate(c["ests"])]
             out.append(c)
@@ -708,9 +711,14 @@ class ManagerCorr(FrameResultCorr):
             # under test is then NOT the manager's first frame (tracking: it has a predecessor)
             e0 = [build_object(d, case["frame"]) for d in case["ests"]]
             g0 = [build_object(d, case["frame"]) for d in case["gts"]]
-            f0 = frame_ground_truth(case, g0)
             n_t = len(case["crit"]["targets"])
-            manager.add_frame_result(100, f0, e0, crit_config(ec, {"targets": case["crit"]["targets"], "max_x": [100.0] * n_t, "max_y": [100.0] * n_t}), pf)
+            if case.get("history_same_cfg"):
+                c0 = case if case["frame"] == "cam" else dict(case, ego={"pos": [case["ego"]["pos"][0] + 37.0, case["ego"]["pos"][1] - 21.0, case["ego"]["pos"][2]],
+                                                                        "quat": [0.6, 0.0, 0.0, 0.8]})
+                manager.add_frame_result(100, frame_ground_truth(c0, g0), e0, crit, pf)
+            else:
+                f0 = frame_ground_truth(case, g0)
+                manager.add_frame_result(100, f0, e0, crit_config(ec, {"targets": case["crit"]["targets"], "max_x": [100.0] * n_t, "max_y": [100.0] * n_t}), pf)
         n_before = len(fgt.objects)
         fr = manager.add_frame_result(100, fgt, list(ests), crit, pf)
         # the matching the manager performed, recomputed through the public matching entry point on the
